@@ -131,6 +131,7 @@ impl<C: Config, Q: Query> Snapshot<C, Q> {
             self.computing_lock_to_clean_query(
                 cleaned_edges,
                 None,
+                None,
                 caller_information,
                 lock_guard,
             )
@@ -164,9 +165,29 @@ impl<C: Config, Q: Query> Snapshot<C, Q> {
 
             let new_tfc = self.engine().create_tfc(new_tfcs);
 
+            // The new set has been built from the callees' current sets, so
+            // the observations must say so: keep the observed values, but
+            // record the callees' current set fingerprints. With the
+            // fingerprints of the last execution left in place, a callee
+            // whose set changes and later changes back to the one observed
+            // then would look unchanged while this query still holds the set
+            // built in between.
+            let mut new_observations =
+                (*self.forward_edge_observation().await.unwrap().0).clone();
+
+            for (callee, observation) in &mut new_observations {
+                if let Some(callee_info) =
+                    self.engine().try_get_node_info(callee).await
+                {
+                    observation.seen_transitive_firewall_callees_fingerprint =
+                        callee_info.transitive_firewall_callees_fingerprint();
+                }
+            }
+
             self.computing_lock_to_clean_query(
                 cleaned_edges,
                 Some(new_tfc),
+                Some(ForwardEdgeObservation(Arc::new(new_observations))),
                 caller_information,
                 lock_guard,
             )
@@ -251,7 +272,8 @@ impl<C: Config, Q: Query> Snapshot<C, Q> {
         crate::verif_pause!("r.check", Some(callee));
         // skip if not dirty
         // however, we can't skip if pedantic_repair is true
-        let edge_is_dirty = engine.is_edge_dirty(*query_id, *callee).await;
+        let mut edge_is_dirty =
+            engine.is_edge_dirty(*query_id, *callee).await;
 
         if !edge_is_dirty
             && !pedantic_repair
@@ -263,8 +285,26 @@ impl<C: Config, Q: Query> Snapshot<C, Q> {
             // the `dynamic_firewall_and_projection` test. You will see that 
             // the test will fail due to this condition.
             && !current_query_kind.is_projection()
+
+            // A clean edge proves that nothing below the callee has changed
+            // only if the firewalls below the callee have been repaired in
+            // this epoch: dirty propagation stops at a firewall. The caller
+            // of this repair has repaired the firewalls recorded for the
+            // *root* of the request only, which need not cover the callee
+            // (a fresh root, or a record older than a dependency added below
+            // it). If the callee's own firewalls are not all settled, fall
+            // through and repair the callee the ordinary way.
+            && engine
+                .is_firewall_frontier_settled(callee, current_timestamp)
+                .await
         {
-            return CalleeCheckDecision::NoNeed;
+            // A firewall of the frontier may have settled (and marked this
+            // edge) between the first read of the mark and the check above.
+            edge_is_dirty = engine.is_edge_dirty(*query_id, *callee).await;
+
+            if !edge_is_dirty {
+                return CalleeCheckDecision::NoNeed;
+            }
         }
 
         let kind = engine.get_query_kind(callee).await;
